@@ -1,3 +1,7 @@
+import HexProofs.Lib.IntInst
 import HexProofs.Manager.Collapse
 import HexProofs.Manager.Resample
 import HexProofs.Manager.Schedule
+import HexProofs.Manager.Fill
+import HexProofs.Manager.Trim
+import HexProofs.Manager.HA
